@@ -489,10 +489,10 @@ fn main() {
     if !ctx.quick() {
         let u3: Vec<String> = pattern_universe(3, &small_menu).into_iter().filter(|p| p.chars().filter(|c| c.is_ascii_alphabetic()).count() == 3).collect();
         let u2 = pattern_universe(2, &pair_menu);
-        let words = words_upto(5, true);
+        let words = words_upto(4, true);
         let (k3, k2) = (u3.len() as u64, u2.len() as u64);
         let (u3, u2, words) = (&u3, &u2, &words);
-        ctx.family("pattern-pairs-3x2", &format!("every pair of one of the {k3} 3-letter patterns (digits {{none,2,9}}) with one of the {k2} 1..2-letter patterns (digits {{none,1,2,9}}) x all words of length 1..5 over {{a,b,A,B}}"), k3 * k2, |idx, acc| {
+        ctx.family("pattern-pairs-3x2", &format!("every pair of one of the {k3} 3-letter patterns (digits {{none,2,9}}) with one of the {k2} 1..2-letter patterns (digits {{none,1,2,9}}) x all words of length 1..4 over {{a,b,A,B}}"), k3 * k2, |idx, acc| {
             let cfg = Config { patterns: vec![u3[(idx / k2) as usize].clone(), u2[(idx % k2) as usize].clone()], ..Default::default() };
             check_config(idx, &cfg, words, acc);
         });
